@@ -95,3 +95,9 @@ def fill(claim, NA):
         "Trusted: CrossHair+z3; E2-proved integer contracts for the MicroDVD float kernels; bs4/lxml serialisation contract for DFXP/SAMI; one symbolic instant per contract; degenerate cues (frame 0 only, zero length after truncation, collapsing pairs) excluded.",
         "CrossHair symbolic execution of write-then-read + z3 LIA algebra (induction over chain length)",
     )
+    claim(
+        "C05",
+        "Bounded symbolic execution of the real SCC reader (public read()) over every preamble address code of the standard, every basic/special/extended character code, tab offsets, single and doubled control codes, and short pop-on programs (two rows with any rows/indents/italics, mid-row italics on/off, backspace), compared with an independent CEA-608 pop-on reference decoder: characters, line/caption grouping by row adjacency, position of the first row, italic flag per character; plus every 4-node (thorough 5) instruction list through the italics normalisation passes.",
+        "Trusted: CrossHair+z3 (table indices and structure choices, completeness certified); vlib/ref608.py (written from the standard, calibrated against pycaption's tables once); well-formedness preconditions listed in the evidence. One known finding (0x7F solid block dropped) is excluded and re-found on every run.",
+        "CrossHair symbolic execution + z3 over code-table indices and program shapes, reference-decoder oracle",
+    )
